@@ -30,9 +30,9 @@ func init() {
 
 var profC15 = Profile{
 	MaxBars: 6, MinBars: 1, MaxSteps: 30, Refresh: []string{"manual", "autoinj", "autort"}, QLens: []int{-1, -1, 0, -2},
-	Pop: 20, Queue: 10, Prio: true, Ext: 20, Text: 1, Rm: 20, NoPop: 15, AbortW: 1, TicksW: 12,
+	Pop: 20, Queue: 10, LateSuccW: 1, Prio: true, Ext: 20, Text: 1, Rm: 20, NoPop: 15, AbortW: 1, TicksW: 12,
 	SyncDecors: 2, PlainDecors: 1, Wraps: true, NoDecorPct: 25, Notifier: 40, Listeners: 20,
-	Fillers: []string{"tag", "bar"}, LateAdd: true,
+	Fillers: []string{"tag", "bar"}, LateAdd: true, Delay: 12,
 }
 
 func genC15(t *rapid.T) interface{} {
@@ -46,7 +46,14 @@ func genC15(t *rapid.T) interface{} {
 	k := rapid.OneOf(rapid.IntRange(1, 4), rapid.IntRange(1, 12)).Draw(t, "k")
 	switch rapid.IntRange(0, 4).Draw(t, "site") {
 	case 0, 1:
-		sc.Bars[rapid.IntRange(0, nb-1).Draw(t, "fbar")].FillErrAt = k
+		fb := rapid.IntRange(0, nb-1).Draw(t, "fbar")
+		sc.Bars[fb].FillErrAt = k
+		if sc.Cfg.Delay && rapid.Bool().Draw(t, "faultreleases") {
+			// the render delay ends at the very moment the fault occurs (closing the
+			// channel is the user's business, from any goroutine): the container must
+			// not come back to life through the release
+			sc.Bars[fb].FillErrRelease = true
+		}
 		if nb >= 2 && rapid.IntRange(0, 3).Draw(t, "secondfault") == 0 {
 			// a second bar fails on the same call number: with both added before the
 			// same frame, two errors arise in one render cycle
@@ -170,6 +177,15 @@ func runC15(ci interface{}) Result {
 	}
 	if nfired >= 2 {
 		r.Classes = append(r.Classes, "two-faults-fired")
+	}
+	if sc.Cfg.Delay {
+		r.Classes = append(r.Classes, "fault-with-render-delay")
+		for _, b := range sc.Bars {
+			if b.FillErrRelease && b.FillErrAt > 0 && site == "filler" {
+				r.Classes = append(r.Classes, "fault-ends-render-delay")
+				break
+			}
+		}
 	}
 	// exactly once, and nothing else. Two faults of the same cycle (a second bar
 	// failing too) may each be the one reported.
